@@ -463,6 +463,10 @@ func (c *StdioClient) SetRootsProvider(provider RootsProvider) {
 
 // SendRootsListChangedNotification notifies server that roots changed.
 func (c *StdioClient) SendRootsListChangedNotification(ctx context.Context) error {
+	if !c.initialized.Load() {
+		return fmt.Errorf("client not initialized")
+	}
+
 	// Create roots list changed notification.
 	notification := &JSONRPCNotification{
 		JSONRPC: JSONRPCVersion,
